@@ -84,9 +84,9 @@ let handle line = match parse line with
   | [A "scan"; I left; I thr; g; its; filt; script] ->
       log := []; let g = grid_of g in
       show_res (scan (scripted (ints script)) (z_of_int thr) (left <> 0) (filt_of filt) g (its_of g its))
-  | [A "tree"; I d; I thr; g; its; script] ->
+  | [A "tree"; I comp; I d; I thr; g; its; script] ->
       log := []; let g = grid_of g in
-      show_res (treescan (scripted (ints script)) (z_of_int thr) (nat_of_int d) g (its_of g its))
+      show_res (treescan (scripted (ints script)) (z_of_int thr) (comp <> 0) (nat_of_int d) g (its_of g its))
   | [A "exh"; I thr; g; obs; script] ->
       log := []; let g = grid_of g in
       let obs = List.map (fun r -> List.map ints (list_of r)) (list_of obs) in
